@@ -66,6 +66,11 @@ def run(ctx):
             facts = atomic_facts(g, prog, bi, tb)
             for h, cargs in callers:
                 env = float_facts_to_env(facts)
+                # integer parameters: an open end `0 < n` is the closed end `1 <= n`
+                for pi in range(1, g.arg_count + 1):
+                    rk = repr(("param", pi, g.local_name(pi)))
+                    if rk in env and g.local_ty(pi) in ("usize", "u64", "u32") and not env[rk].lc and env[rk].lo == int(env[rk].lo):
+                        env[rk] = Iv(env[rk].lo + 1, env[rk].hi, True, env[rk].hc)
                 okc = cargs[0][0] == "const" and cargs[1][0] == "const"
                 if not okc:
                     ctx.shape("R07-sizing-intervals", h.key, h, "bucketsize / load factor are not constants at this call site")
@@ -94,6 +99,20 @@ def run(ctx):
                 l = ("field", ("param", 1, "self"), "l_fingerprint")
                 want = mk("Sub", mk("Shl", const(1), l), const(1))
                 okm = True
+                # branch-free spelling of the same mask: u64::MAX >> (64 - l), defined and equal to 2^l - 1 exactly for 1 <= l <= 64 —
+                # admitted only if the constructor establishes that range for the field
+                def all_ones(x):
+                    return (x[0] == "call" and x[1].endswith("max_value")) or x == const(2 ** 64 - 1) or (x[0] == "namedconst" and x[1].endswith("MAX"))
+                shr = mk("Shr", M[2][0], mk("Sub", const(64), l)) if (M[0] == "op" and M[1] == "Shr" and len(M[2]) == 2) else None
+                if shr is not None and M == shr and all_ones(M[2][0]) and ctor is not None:
+                    from .common import construction_blocks
+                    from ..guards import int_bounds
+                    cb = construction_blocks(ctx, ctor, CF)
+                    lp = [("param", i, ctor.local_name(i)) for i in range(1, ctor.arg_count + 1) if ctor.local_name(i) == "l_fingerprint"]
+                    if cb and lp:
+                        lo_, hi_ = int_bounds(atomic_facts(ctor, prog, cb[-1]), lp[0])
+                        if lo_ is not None and hi_ is not None and 1 <= lo_ and hi_ <= 64:
+                            alts = (want,)
                 for x in alts:
                     if x == want:
                         continue
